@@ -412,7 +412,42 @@ func (ex *Exec) store(p Ptr, v Value) {
 	if ex.eng.guard != nil {
 		ex.eng.guard(ex, p, true)
 	}
+	if ex.h != nil && ex.h.RaceMonitor {
+		ex.raceWrite(p.obj)
+	}
 	p.obj.val = ex.update(p.obj.val, p.path, v)
+}
+
+// raceWrite: footprint monitor for concurrently running goroutines (sequentialised by the
+// engine): a byte array that existed before the goroutines were started and is written by two
+// different goroutines is shared mutable state without synchronisation.
+func (ex *Exec) raceWrite(o *Obj) {
+	g, _ := ex.st["cur_goroutine"].(int)
+	if g == 0 {
+		return
+	}
+	first, ok := ex.st["go_first_obj"].(int)
+	if !ok || o.id > first {
+		return
+	}
+	if _, isBytes := o.val.(BytesV); !isBytes {
+		return
+	}
+	w, _ := ex.st["race_writers"].(map[*Obj]int)
+	if w == nil {
+		w = map[*Obj]int{}
+		ex.st["race_writers"] = w
+	}
+	if prev, seen := w[o]; seen && prev != g {
+		if ex.st["race_reported"] == nil {
+			ex.st["race_reported"] = true
+			v := &Violation{Harness: ex.h.Name, Kind: "assert", Label: "data race: the byte buffer " + o.name + " (allocated before the goroutines started) is written by two concurrent goroutines", Site: ex.frame.fn.String()}
+			ex.fillModel(v, nil)
+			ex.res.Violations = append(ex.res.Violations, v)
+		}
+		return
+	}
+	w[o] = g
 }
 
 // bytesAt returns the BytesV a pointer-to-byte-array designates.
@@ -1226,7 +1261,12 @@ func (ex *Exec) goStmt(fr *Frame, fv Value, args []Value, site ssa.Instruction) 
 	// Sequentialisation: the goroutine is run to completion here (see DESIGN 2.7a),
 	// unless the harness asked for goroutines to be queued.
 	if ex.h != nil && ex.h.QueueGo {
-		ex.st["goq"] = append(ex.goQueue(), goTask{fv, args})
+		if _, ok := ex.st["go_first_obj"]; !ok {
+			ex.st["go_first_obj"] = ex.objID // objects with a smaller id existed before the first goroutine started
+		}
+		n, _ := ex.st["go_count"].(int)
+		ex.st["go_count"] = n + 1
+		ex.st["goq"] = append(ex.goQueue(), goTask{fv, args, n + 1})
 		return nil
 	}
 	_, pan := ex.callAny(fv, args, site)
@@ -1236,6 +1276,7 @@ func (ex *Exec) goStmt(fr *Frame, fv Value, args []Value, site ssa.Instruction) 
 type goTask struct {
 	fn   Value
 	args []Value
+	id   int
 }
 
 func (ex *Exec) goQueue() []goTask {
